@@ -441,7 +441,7 @@ def _array_model(m, arr):
 class Run:
     """State shared by all paths of one exploration."""
 
-    def __init__(self, max_paths=20000, max_enum=4096, wall_s=None):
+    def __init__(self, max_paths=20000, max_enum=300, wall_s=None):
         self.stats = Stats()
         self.obligations = []
         self.max_paths = max_paths
@@ -452,7 +452,7 @@ class Run:
         self.monitor_events = []
 
 
-def explore(fn, max_paths=20000, max_enum=4096, wall_s=None, run=None):
+def explore(fn, max_paths=20000, max_enum=300, wall_s=None, run=None):
     """Run fn(engine) once per feasible path (DART-style re-execution).
 
     Returns the Run.  fn's return value per completed path is in run.results as
